@@ -576,7 +576,52 @@ def check_C10(res):
     return "requests signed by the harness's own RFC 8945 signer; variants: wrong secret, unknown key/algorithm, key-algorithm mismatch, MAC truncated to every length, time offsets around +-fudge, tampered covered octets, bad class/TTL, TSIG not last, other-data, error codes, maximal key/algorithm names; both MACs recomputed in TLC"
 
 
+def trace_stage(res, driver_args, module, name, tags, session_start=None, nshards=NSHARDS, deque=False, env=None):
+    path = tr(f"{res.pid}-{name.replace('/', '-')}-{res.seed}.ndjson")
+    run_driver(driver_args + [path])
+    v = validate_trace(path, module + ".tla", module + ".cfg", nshards=nshards, session_start=session_start, deque=deque, env=env)
+    res.add_trace(name, v, path, own_tags=tags)
+    os.remove(path)
+    return v
+
+
+def check_C14(res):
+    q = res.tier == "quick"
+    trace_stage(res, ["names", "wire", res.seed, 3 if q else 4], "TraceNames", "names/wire", ["C14"])
+    trace_stage(res, ["names", "wirebig", res.seed, 1500 if q else 60000], "TraceNames", "names/wirebig", ["C14"])
+    return "exhaustive: all buffers of length <= 3 (quick) / <= 4 (thorough) over the 12-symbol alphabet {0,1,2,3,63,64,'a','A',0xC0,0xC1,0xFF,12} at every start offset 0..len; structured buffers up to 600 octets (pointer chains, pointers to self/forward/last octet, 63/64-octet labels, 126-128 labels, 254-256 octet names); five API functions per record"
+
+
+def check_C16(res):
+    q = res.tier == "quick"
+    trace_stage(res, ["names", "text", res.seed, 8000 if q else 300000], "TraceNames", "names/text", ["C16"])
+    return "random names with arbitrary label octets ('.', '\\', space, NUL, non-ASCII, '*'), 63-octet labels, 255-octet names, 127 labels; pairs incl. case variants and superdomains; random text with escapes and boundary sizes"
+
+
+def check_C17(res):
+    q = res.tier == "quick"
+    stride = 7 if q else 1
+    trace_stage(res, ["codes", stride, res.seed], "TraceCodes", "codes", ["C17"])
+    res.notes["codes"]["exhaustive"] = not q
+    return "all 65536 values of TYPE, CLASS, QTYPE, QCLASS (every 7th plus all named values in quick): Display, parse-back, upper/lower/mixed case, TYPEnnn/CLASSnnn in both cases, five malformed variants; all mnemonics in three spellings parsed as each kind; all 256 opcode/RCODE octets; extended RCODEs"
+
+
+def check_C18(res):
+    q = res.tier == "quick"
+    trace_stage(res, ["rdata", res.seed, 6000 if q else 300000], "TraceRdata", "rdata", ["C18"])
+    return "26 class/type combinations (A, CH A, NS, MD, MF, CNAME, SOA, MB, MG, MR, WKS, PTR, HINFO, MINFO, MX, TXT, AAAA, SRV, OPT, TSIG, NULL, unknown, non-IN variants); valid and near-valid RDATA (one octet short/long, bumped octet, truncation); Rdata::read with pointer-compressed embedded names and cursor/RDLENGTH pairs incl. cursor = len and RDLENGTH off by one; writer->reader round trip in all three compression modes"
+
+
+def check_C19(res):
+    q = res.tier == "quick"
+    trace_stage(res, ["rdata", res.seed + 1000, 6000 if q else 300000], "TraceRdata", "rdata", ["C19"])
+    return "pairs and triples (a,b,c) from a shared name pool with case variants, trailing junk and truncations; equals evaluated in both argument orders, reflexivity/symmetry/transitivity are trace conjuncts; RdataSetOwned::from_iter([a,b,c,a]) must keep Dedup's first members in order"
+
+
 CHECKS = {
+    "C18": check_C18, "C19": check_C19,
+    "C17": check_C17,
+    "C14": check_C14, "C16": check_C16,
     "C01": check_C01, "C02": check_C02, "C03": check_C03, "C04": check_C04, "C05": check_C05,
     "C07": check_C07, "C08": check_C08, "C09": check_C09, "C10": check_C10,
 }
